@@ -297,11 +297,15 @@ def r5(ctx):
         raise Unestablished("_forward: expected one layer loop, found %d" % len(loops), c.loc(fn))
     lid, it = loops[0][1], loops[0][2]
     lnode = E.loop_summaries[lid]["node"]
-    ok_it = (isinstance(it, tuple) and it[0] == "idx" and it[1] == ("field", ("p", "self"), "layers") and e5.range_of(it[2]) is not None
-             and e5.range_of(it[2]) == (("p", fn["params"][2]["name"] if fn["params"][2].get("k") == "bind" else "?"), ("p", fn["params"][3]["name"] if fn["params"][3].get("k") == "bind" else "?")))
-    ctx.check("R02.5", "layer-range-in-order", ok_it, "layer-walk:" + short(e5.show(it), 60), c.loc(fn, lnode), "for layer in &self.layers[from..to]")
-    elem = ("elem", it, lid)
+    # the walk visits the slice self.layers[from..to] front to back (by element or by position)
+    WIN = ("idx", ("field", ("p", "self"), "layers"), ("struct", "std::ops::Range", (("start", ("p", fn["params"][2]["name"] if fn["params"][2].get("k") == "bind" else "?")),
+                                                                                       ("end", ("p", fn["params"][3]["name"] if fn["params"][3].get("k") == "bind" else "?")))))
     body = E.loop_summaries[lid]["paths"]
+    sw = e5.seq_walk(it, lid, WIN)
+    elem = e5.walk_element(body, sw["fwd"]) if sw and sw["fwd"] else None
+    ctx.check("R02.5", "layer-range-in-order", elem is not None, "layer-walk:" + short(e5.show(it), 60), c.loc(fn, lnode), "for layer in &self.layers[from..to]")
+    if elem is None:
+        return
     X = None
     layer_adt = c.adts["network::Layer"]
     inp_name = pat_binds(fn["params"][1])[0][0]
